@@ -1234,6 +1234,11 @@ func c03R10(ic *IC, r *Report) {
 			for _, c := range allCalls(ifs.Cond) {
 				if f, ok := calleeOf(info, c).(*types.Func); ok && f.Pkg() == ic.Pk.Types {
 					if sg := f.Type().(*types.Signature); sg.Results().Len() == 1 && types.Identical(sg.Results().At(0).Type(), types.Typ[types.Bool]) {
+						// a predicate over a type (isInt(t reflect.Type)) says which dividends are
+						// concerned, not whether the divisor is zero
+						if sg.Params().Len() == 1 && types.TypeString(sg.Params().At(0).Type(), nil) == "reflect.Type" {
+							continue
+						}
 						preds[f] = c.Pos()
 					}
 				}
